@@ -3,7 +3,12 @@
 keys: pkg, level (exploration|fault_enumeration), rule, technique, level_text, level_note, assumptions,
       quick/thorough: {timeout (s, per process), shards (processes per TestProp* function)},
       optional: native (bool: build native runner), race (bool), parallel (max concurrent processes),
-                shards_for: {TestName: {quick: n, thorough: n}}, claimed (bool, default true), na_reason
+                shards_for: {TestName: {quick: n, thorough: n}}, claimed (bool, default true), na_reason,
+                fuzz: {seconds_per_target (default 30), parallel (workers per target, default 2), minimize_seconds
+                       (default 2), instrument (package pattern built with -d=libfuzzer coverage counters in the
+                       thorough tier)} - budget of the native `go test -fuzz` tier the driver runs in THOROUGH for
+                       every `func FuzzXxx(*testing.F)` of the package (their seed corpora run as plain tests in
+                       both tiers); packages without Fuzz* functions are unaffected
 """
 import glob, json, os
 
